@@ -8,10 +8,13 @@ was written; see DESIGN 9.65).  apply(kind, root) rewrites root/skoolkit/*.py (o
   mask     x % 2^k -> x & (2^k - 1), x // 2^k -> x >> k   (simulator modules)
   aug      registers[i] += x -> registers[i] = registers[i] + x   (simulator modules)
   fstring  f'...{x}...' -> '...{}...'.format(x)
-  crename  every local variable of every C function X -> X_rn (token offsets from clang's JSON AST)"""
+  swap     two adjacent assignments to plain names that do not mention each other's target and contain no call: exchanged
+  untuple  a, b = x, y -> a = x; b = y when no target occurs in a value
+  crename  every local variable of every C function X -> X_rn (token offsets from clang's JSON AST)
+  cflip    C comparisons outside macros: A op B -> (B) flipped-op (A)"""
 import ast, copy, json, os, subprocess, sysconfig
 
-KINDS = ('rename', 'rettemp', 'invert', 'flip', 'mask', 'aug', 'fstring', 'crename')
+KINDS = ('rename', 'rettemp', 'invert', 'flip', 'mask', 'aug', 'fstring', 'swap', 'untuple', 'crename', 'cflip')
 SIM = ('simulator.py', 'cmiosimulator.py', 'loadtracer.py', 'pagingtracer.py', 'simutils.py')
 
 def _outer(tree):
@@ -102,9 +105,52 @@ class _T(ast.NodeTransformer):
                 args.append(v.value)
         return ast.Call(func=ast.Attribute(value=ast.Constant(value=fmt), attr='format', ctx=ast.Load()), args=args, keywords=[])
 
+def _names(e):
+    return {n.id for n in ast.walk(e) if isinstance(n, ast.Name)}
+
+def _pure(e):
+    return not any(isinstance(n, (ast.Call, ast.Yield, ast.YieldFrom, ast.Await, ast.NamedExpr)) for n in ast.walk(e))
+
+def _blocks(tree):
+    for n in ast.walk(tree):
+        for field in ('body', 'orelse', 'finalbody'):
+            b = getattr(n, field, None)
+            if isinstance(b, list) and b and isinstance(b[0], ast.stmt):
+                yield b
+
+def _swap(tree):
+    for b in _blocks(tree):
+        i = 0
+        while i + 1 < len(b):
+            s1, s2 = b[i], b[i + 1]
+            if all(isinstance(s, ast.Assign) and len(s.targets) == 1 and isinstance(s.targets[0], ast.Name) and _pure(s.value) for s in (s1, s2)):
+                t1, t2 = s1.targets[0].id, s2.targets[0].id
+                if t1 != t2 and t1 not in _names(s2.value) and t2 not in _names(s1.value):
+                    b[i], b[i + 1] = s2, s1
+                    i += 2
+                    continue
+            i += 1
+
+def _untuple(tree):
+    for b in _blocks(tree):
+        i = 0
+        while i < len(b):
+            s = b[i]
+            if isinstance(s, ast.Assign) and len(s.targets) == 1 and isinstance(s.targets[0], ast.Tuple) and isinstance(s.value, ast.Tuple) and len(s.targets[0].elts) == len(s.value.elts) \
+               and all(isinstance(t, ast.Name) for t in s.targets[0].elts) and all(_pure(v) for v in s.value.elts):
+                tn = {t.id for t in s.targets[0].elts}
+                if len(tn) == len(s.targets[0].elts) and not any(tn & _names(v) for v in s.value.elts):
+                    new = [ast.Assign(targets=[t], value=v, lineno=s.lineno, col_offset=s.col_offset) for t, v in zip(s.targets[0].elts, s.value.elts)]
+                    b[i:i + 1] = new
+                    i += len(new)
+                    continue
+            i += 1
+
 def apply(kind, root):
     if kind == 'crename':
         return _crename(root)
+    if kind == 'cflip':
+        return _cflip(root)
     files = sorted(f for f in os.listdir(os.path.join(root, 'skoolkit')) if f.endswith('.py') and f != '__init__.py')
     if kind in ('mask', 'aug'):
         files = [f for f in files if f in SIM]
@@ -114,6 +160,12 @@ def apply(kind, root):
         if kind == 'rename':
             for fn in _outer(tree):
                 _rename(fn)
+        elif kind == 'swap':
+            _swap(tree)
+            ast.fix_missing_locations(tree)
+        elif kind == 'untuple':
+            _untuple(tree)
+            ast.fix_missing_locations(tree)
         else:
             tree = _T(kind).visit(tree)
             ast.fix_missing_locations(tree)
@@ -183,5 +235,47 @@ def _crename(root):
     for o in sorted(edits, reverse=True):
         name = edits[o]
         out[o:o + len(name)] = (name + '_rn').encode()
+    with open(src_p, 'wb') as fh:
+        fh.write(out)
+
+def _cflip(root):
+    src_p = os.path.join(root, 'c', 'csimulator.c')
+    src = open(src_p, 'rb').read()
+    FLIP = {'<': '>', '>': '<', '<=': '>=', '>=': '<=', '==': '==', '!=': '!='}
+    edits = {}
+    def plain(loc):
+        return bool(loc) and 'offset' in loc and 'spellingLoc' not in loc and 'expansionLoc' not in loc and 'includedFrom' not in loc
+    for flags in ([], ['-DCONTENTION']):
+        p = subprocess.run(['clang', '-I' + sysconfig.get_paths()['include']] + flags + ['-fsyntax-only', '-Xclang', '-ast-dump=json', src_p], capture_output=True)
+        tu = json.loads(p.stdout)
+        curfile = None
+        for d in tu['inner']:
+            loc = d.get('loc') or {}
+            for s_ in (loc, loc.get('expansionLoc') or {}, loc.get('spellingLoc') or {}):
+                if 'file' in s_:
+                    curfile = s_['file']
+            rb = (d.get('range') or {}).get('begin') or {}
+            for s_ in (rb, rb.get('expansionLoc') or {}):
+                if 'file' in s_:
+                    curfile = s_['file']
+            if not (curfile and curfile.endswith('csimulator.c')) or d.get('kind') != 'FunctionDecl':
+                continue
+            def walk(n, inside=False):
+                done = False
+                if n.get('kind') == 'BinaryOperator' and n.get('opcode') in FLIP and not inside:
+                    a, b = n['inner']
+                    ra, rb_ = a.get('range', {}), b.get('range', {})
+                    if all(plain(x) for x in (ra.get('begin'), ra.get('end'), rb_.get('begin'), rb_.get('end'))):
+                        a0, a1 = ra['begin']['offset'], ra['end']['offset'] + ra['end']['tokLen']
+                        b0, b1 = rb_['begin']['offset'], rb_['end']['offset'] + rb_['end']['tokLen']
+                        if a1 <= b0 and src[a1:b0].decode().strip() == n['opcode']:
+                            edits[(a0, b1)] = '(%s) %s (%s)' % (src[b0:b1].decode(), FLIP[n['opcode']], src[a0:a1].decode())
+                            done = True
+                for c in n.get('inner', []):
+                    walk(c, inside or done)
+            walk(d)
+    out = bytearray(src)
+    for (a0, b1) in sorted(edits, reverse=True):
+        out[a0:b1] = edits[(a0, b1)].encode()
     with open(src_p, 'wb') as fh:
         fh.write(out)
